@@ -12,6 +12,9 @@
           | c dt_ns n { cluster m name_index*m }*n          a whole refresh cycle: sendClusterRequest, the cluster list,
                                                             then one group list per (distinct) cluster
                                                             -> HClusters; HRefresh for each distinct cluster (first entry wins)
+          | b dt_ns pair_index status g cluster n name_index*n   a response whose first Notify call blocks while a group list
+          | b dt_ns pair_index status c n { cluster m name_index*m }*n   / a refresh cycle arrives: the refresh waits for the write
+                                                            lock -> HResponse, then the refresh events
           | s dt_ns n cluster*n                             a refresh cycle whose storage requests time out (nobody takes
                                                             them off the storage channel within a second): n = -1 - the
                                                             cluster-list request, nothing happens -> no event;
@@ -70,6 +73,13 @@ let hist (fixed : bool) t : string =
   let tick () = clock := ZA.add !clock (ZA.of_string (next t)); coqz_of_zt !clock in
   let group_list () : z list =
     let n = next_int t in rep n (fun () -> next_z t) in
+  let cycle now : nevent list =
+    let n = next_int t in
+    let entries = rep n (fun () -> let c = next_z t in see c; (c, group_list ())) in
+    let rec dedup seen = function
+      | [] -> []
+      | (c, gs) :: r -> if List.mem (iz c) seen then dedup seen r else (c, gs) :: dedup (iz c :: seen) r in
+    HClusters (now, List.map fst entries) :: List.map (fun (c, gs) -> HRefresh (now, c, gs)) (dedup [] entries) in
   (* one case-line step = one or more model events; the calls of the step are those of its events *)
   let steps : nevent list list = rep ns (fun () ->
     match next t with
@@ -85,12 +95,20 @@ let hist (fixed : bool) t : string =
         [ HRefresh (now, c, group_list ()) ]
     | "c" ->
         let now = tick () in
-        let n = next_int t in
-        let entries = rep n (fun () -> let c = next_z t in see c; (c, group_list ())) in
-        let rec dedup seen = function
-          | [] -> []
-          | (c, gs) :: r -> if List.mem (iz c) seen then dedup seen r else (c, gs) :: dedup (iz c :: seen) r in
-        HClusters (now, List.map fst entries) :: List.map (fun (c, gs) -> HRefresh (now, c, gs)) (dedup [] entries)
+        cycle now
+    | "b" ->
+        (* a response whose first Notify call is slow, with a refresh arriving meanwhile: the refresh waits for the write
+           lock, i.e. takes effect after the response *)
+        let now = tick () in
+        let p = next_int t in
+        let status = next_z t in
+        let (c, g) = pairs.(p) in
+        let refresh =
+          (match next t with
+           | "g" -> let c = next_z t in see c; [ HRefresh (now, c, group_list ()) ]
+           | "c" -> cycle now
+           | k -> failwith ("drv_notifier: unknown refresh kind in b step " ^ k)) in
+        ev_response now c g status :: refresh
     | "s" ->
         let now = tick () in
         let n = next_int t in
@@ -119,9 +137,29 @@ let hist (fixed : bool) t : string =
   let k = "K:" ^ (if known = [] then "-" else String.concat "," (List.map string_of_int known)) in
   String.concat " | " (List.map step outs) ^ " || " ^ String.concat " ; " (k :: recs)
 
+(* cfg set|toml NM { class allow deny send_close }*NM NN { name { rx4 }*NM }*NN
+   What Coordinator.Configure must build: a module of the named class under the configured name whose lists have the outcome
+   the case line states (computed from the pattern texts), AcceptConsumerGroup true (all three real classes), and a result
+   for the group is handed to the module exactly when lists_accept says so. *)
+let config t : string =
+  let _mode = next t in
+  let nm = next_int t in
+  let classes = Array.of_list (rep nm (fun () ->
+    let cl = next t in let _a = next t in let _d = next t in let _c = next t in cl)) in
+  let nn = next_int t in
+  let rows = rep nn (fun () -> let _name = next t in Array.of_list (rep nm (fun () -> next t))) in
+  String.concat " ; " (List.init nm (fun i ->
+    Printf.sprintf "m%d:%s:m%d" (i + 1) classes.(i) (i + 1) ^
+    String.concat "" (List.mapi (fun g row ->
+      let s = row.(i) in
+      if String.length s <> 4 then failwith "drv_notifier: bad rx4";
+      let x = { rx_allow_set = (s.[0] = '1'); rx_allow_match = (s.[1] = '1'); rx_deny_set = (s.[2] = '1'); rx_deny_match = (s.[3] = '1') } in
+      Printf.sprintf " g%d=%s/1/%d" g s (if lists_accept x then 1 else 0)) rows)))
+
 let run (line : string) : string =
   let t = toks_of_line line in
   match next t with
+  | "cfg" -> config t
   | "hist" -> hist true t
   | "hist0" -> hist false t
   | k -> failwith ("drv_notifier: unknown case kind " ^ k)
